@@ -64,10 +64,8 @@ func (m *Model) calleesOf(fn *ssa.Function) []callEdge {
 			}
 			return
 		}
-		if fn == m.A.TxnRunner || fn == m.A.AllocClos {
-			if !c.Common().IsInvoke() {
-				return // the callback invocation: handled lexically
-			}
+		if !c.Common().IsInvoke() && m.isAllocCallback(c.Common()) {
+			return // the allocator's write callback: reached lexically from the function that passes it
 		}
 		if p, ok := c.Common().Value.(*ssa.Parameter); ok && !c.Common().IsInvoke() && p.Parent() == fn {
 			if _, isFn := p.Type().Underlying().(*types.Signature); isFn {
@@ -529,19 +527,49 @@ func (m *Model) hoParams(fn *ssa.Function) map[int]bool {
 	}
 	out := map[int]bool{}
 	m.hoCache[fn] = out
+	idx := func(v ssa.Value) int {
+		if p, ok := stripConv(v).(*ssa.Parameter); ok {
+			for i, q := range fn.Params {
+				if q == p {
+					return i
+				}
+			}
+		}
+		return -1
+	}
 	m.eachCall(fn, func(c ssa.CallInstruction) {
 		if c.Common().IsInvoke() {
 			return
 		}
-		if p, ok := c.Common().Value.(*ssa.Parameter); ok {
-			for i, q := range fn.Params {
-				if q == p {
-					out[i] = true
+		if i := idx(c.Common().Value); i >= 0 {
+			out[i] = true
+		}
+		// passed down to another helper that invokes it
+		if callee := c.Common().StaticCallee(); callee != nil && m.inPkg(callee) && callee != fn {
+			for j, arg := range c.Common().Args {
+				if i := idx(arg); i >= 0 {
+					if _, isFn := arg.Type().Underlying().(*types.Signature); isFn && m.hoParams(callee)[j] {
+						out[i] = true
+					}
 				}
 			}
 		}
 	})
 	return out
+}
+
+// isAllocCallback: a dynamic call of a function value whose first result is the event type
+// (the write callback handed to the CAS allocator).
+func (m *Model) isAllocCallback(cc *ssa.CallCommon) bool {
+	if m.A.EventType == nil || cc.StaticCallee() != nil {
+		return false
+	}
+	sig, ok := cc.Value.Type().Underlying().(*types.Signature)
+	if !ok || sig.Results().Len() == 0 {
+		return false
+	}
+	pt, ok := sig.Results().At(0).Type().(*types.Pointer)
+	return ok && pt.Elem() == m.A.EventType
 }
 
 // heldInsideHelper: the locks a higher-order helper holds (relative to its own entry) at the
@@ -554,22 +582,36 @@ func (m *Model) heldInsideHelper(h *ssa.Function) lockset {
 	m.helperHeld[h] = out
 	fl := m.flowLocks(h, lockset{})
 	first := true
+	meet := func(held lockset) {
+		if first {
+			for l := range held {
+				out[l] = true
+			}
+			first = false
+			return
+		}
+		for l := range out {
+			if !held[l] {
+				delete(out, l)
+			}
+		}
+	}
 	m.eachCall(h, func(c ssa.CallInstruction) {
 		if c.Common().IsInvoke() {
 			return
 		}
 		if p, ok := c.Common().Value.(*ssa.Parameter); ok && p.Parent() == h {
-			held := fl.mustAt[c]
-			if first {
-				for l := range held {
-					out[l] = true
-				}
-				first = false
-			} else {
-				for l := range out {
-					if !held[l] {
-						delete(out, l)
+			meet(fl.mustAt[c])
+			return
+		}
+		if callee := c.Common().StaticCallee(); callee != nil && m.inPkg(callee) && callee != h {
+			for j, arg := range c.Common().Args {
+				if p, ok := stripConv(arg).(*ssa.Parameter); ok && p.Parent() == h && m.hoParams(callee)[j] {
+					held := fl.mustAt[c].clone()
+					for l := range m.heldInsideHelper(callee) {
+						held[l] = true
 					}
+					meet(held)
 				}
 			}
 		}
